@@ -68,6 +68,21 @@ Proof.
   - apply witness_invalid.
 Qed.
 
+(* the current (repaired) admission sequence still accepts the witness: the repaired merge step
+   leaves it alone, and the validator's FieldSelectionMerging rule, which compares names and
+   arguments of scalar-typed fields only, finds nothing wrong with two [a] fields of type A *)
+Lemma overlap_rule_accepts_witness : go_overlap_ok S0 (merge_fields witness) = true.
+Proof. vm_compute. reflexivity. Qed.
+Lemma accept_iff_valid_refuted_proof :
+  exists S d, go_overlap_ok S (merge_fields d) = true /\ spec_valid_b S d None = false.
+Proof. exists S0, witness. split. apply overlap_rule_accepts_witness. apply witness_invalid. Qed.
+(* ... while a conflict between scalar-typed fields is caught by the model of the rule *)
+Definition leaf_conflict : document :=
+  [mk_query [] [fld fa [] [SField (Some [122]) fb [] [] []; SField (Some [122]) fc [] [] []]]].
+Lemma overlap_rule_rejects_leaf_conflict :
+  go_overlap_ok S0 (merge_fields leaf_conflict) = false /\ spec_valid_b S0 leaf_conflict None = false.
+Proof. vm_compute. split; reflexivity. Qed.
+
 (* the repaired step never merges two fields whose argument lists differ *)
 Lemma fixed_merge_requires_equal_arguments : forall a n args dirs ss a' n' args' dirs' ss',
   can_merge true (SField a n args dirs ss) (SField a' n' args' dirs' ss') = true ->
